@@ -4,6 +4,8 @@ import (
 	"bytes"
 	"encoding/json"
 	"fmt"
+	"os"
+	"path/filepath"
 	"strings"
 
 	"github.com/practable/relay/verifharness/lib"
@@ -27,6 +29,7 @@ type Session struct {
 	API   string `json:"api"`  // Opts.API ("" = no control connection configured)
 	Mode  string `json:"mode"` // "topic" (in-process client of the api topic) | "ws" (websocket client of /ws/api) | "direct" (handleAdminMessage)
 	Items []Item `json:"items"`
+	TmpDir string `json:"tmp_dir,omitempty"` // created before and removed after the session: where rules with a "file" record to
 	Obs   []Obs  `json:"obs,omitempty"`
 }
 
@@ -68,6 +71,15 @@ func lookalike(r *lib.Rng) string {
 		return w + w
 	}
 	return w
+}
+
+var tmpDirs []string
+
+// newTmpDir names a directory for one session (created by the child, removed by the parent afterwards)
+func newTmpDir() string {
+	d := filepath.Join(os.TempDir(), fmt.Sprintf("verif-c18-%d-%d", os.Getpid(), len(tmpDirs)))
+	tmpDirs = append(tmpDirs, d)
+	return d
 }
 
 func jstr(s string) string { b, _ := json.Marshal(s); return string(b) }
@@ -383,6 +395,42 @@ func genScenario(r *lib.Rng) []Item {
 	return items
 }
 
+// genFileScenario: a destination rule that records to a file and whose destination cannot be reached, traffic
+// on its stream (so that its RelayOut holds a message it cannot deliver), a teardown of that rule, and then
+// further commands over the control topic and the HTTP API - each of which must still be answered
+func genFileScenario(r *lib.Rng, dir string, teardown int) []Item {
+	cmd := func(s, fam string) Item {
+		return Item{Kind: "cmd", Msg: []byte(s), Text: fmt.Sprintf("%q", s), Family: fam}
+	}
+	stream := r.Pick([]string{"video-f", "stream/rec", "data-f"})
+	rule := func(id, file string) string {
+		return `{"verb":"add","what":"destination","rule":{"id":"` + id + `","stream":"` + stream + `","destination":"ws://127.0.0.1:9/in/rec","file":` + jraw(file) + `}}`
+	}
+	items := []Item{
+		cmd(rule("f0", dir+"/out.bin"), "add/destination/rule-with-file"),
+		{Kind: "pub", Path: stream, Body: []byte("traffic while the destination is unreachable"), Family: "pub/" + stream},
+	}
+	switch teardown % 4 {
+	case 0:
+		items = append(items, cmd(`{"verb":"delete","what":"destination","which":"f0"}`, "delete/destination/rule-with-file"))
+	case 1:
+		items = append(items, cmd(`{"verb":"delete","what":"destination","which":"all"}`, "delete/destination/which-all"))
+	case 2:
+		items = append(items, cmd(rule("f0", dir+"/out.bin"), "add/destination/rule-with-file-again"))
+	case 3:
+		items = append(items, Item{Kind: "http", Method: "DELETE", Path: "/api/destinations/f0", Family: "http/DELETE /api/destinations/{id}"})
+	}
+	items = append(items,
+		cmd(`{"verb":"healthcheck"}`, "healthcheck/"),
+		cmd(`{"verb":"add","what":"destination","rule":{"id":"after","stream":"`+stream+`","destination":"ws://127.0.0.1:9/in/after"}}`, "add/destination"),
+		Item{Kind: "http", Method: "POST", Path: "/api/destinations", CType: "application/json", Body: []byte(`{"id":"h-after","stream":"video0","destination":"ws://127.0.0.1:9/in/h"}`), Family: "http/POST /api/destinations"},
+		cmd(`{"verb":"delete","what":"destination","which":"after"}`, "delete/destination"),
+		Item{Kind: "http", Method: "DELETE", Path: "/api/destinations/h-after", Family: "http/DELETE /api/destinations/{id}"},
+		cmd(`{"verb":"list","what":"destination","which":"all"}`, "list/destination/which-all"),
+		cmd(`{"verb":"healthcheck"}`, "healthcheck/"))
+	return items
+}
+
 func genSession(r *lib.Rng, nCmd, nHTTP int, mode string) Session {
 	s := Session{Mode: mode}
 	if r.Chance(3, 4) {
@@ -393,9 +441,17 @@ func genSession(r *lib.Rng, nCmd, nHTTP int, mode string) Session {
 	if r.Chance(1, 2) {
 		scenarioAt = r.Intn(k)
 	}
+	fileAt := -1
+	if mode != "direct" && r.Chance(1, 3) {
+		fileAt = r.Intn(k)
+		s.TmpDir = newTmpDir()
+	}
 	for i := 0; i < k; i++ {
 		if i == scenarioAt {
 			s.Items = append(s.Items, genScenario(r)...)
+		}
+		if i == fileAt {
+			s.Items = append(s.Items, genFileScenario(r, s.TmpDir, r.Intn(4))...)
 		}
 		if nHTTP > 0 && (r.Intn(k-i) < nHTTP) && mode != "direct" {
 			s.Items = append(s.Items, genHTTP(r))
@@ -479,6 +535,14 @@ func corpus() []Session {
 				cmd(`{"verb":"delete","what":"destination","which":"all"}`, "scenario-teardown"),
 				cmd(`{"verb":"healthcheck"}`, "healthcheck/"),
 			}})
+		}
+	}
+	// a rule that records to a file, its destination unreachable, traffic on its stream, then its teardown and
+	// further commands and HTTP requests: all of them answered
+	for td := 0; td < 4; td++ {
+		for _, mode := range []string{"topic", "ws"} {
+			dir := newTmpDir()
+			out = append(out, Session{API: api, Mode: mode, TmpDir: dir, Items: genFileScenario(lib.NewRng(int64(100+td)), dir, td)})
 		}
 	}
 	// reserved words in other spellings: none of them may remove apiRule, whatever else they do
